@@ -18,7 +18,7 @@ def files_of(prop):
     for k in registry.PROPS[prop].get('kani', []):
         fs.update(KANI_UNIT_FILE.get(k, '').split())
     for b in registry.PROPS[prop].get('bounded', []):
-        fs.add({'B17a': 'interface.rs', 'B13b': 'tts.rs'}.get(b, ''))
+        fs.add({'B17a': 'interface.rs', 'B13b': 'tts.rs', 'B02a': 'pretty_print.rs'}.get(b, ''))
     return fs
 PROP_FILES = {p: files_of(p) for p in registry.PROPS}
 rows = []
